@@ -107,6 +107,7 @@ class SObj(Sym):
 
     def __init__(self, pycls, name="o", fields=None, ref=None, lazy=None, cands=None):
         SObj._n[0] += 1
+        self.serial = SObj._n[0]
         self.pycls = pycls  # concrete real class, or None while `cands` is undecided
         self.cands = cands  # list of candidate classes (lazy kind)
         self.name = f"{name}#{SObj._n[0]}"
